@@ -18,6 +18,9 @@ func (ex *Exec) callBuiltin(st *State, fv FuncV, args []Value, call *ssa.CallCom
 		ch := fv.env[0].(ChanV)
 		o := st.mut(ch.obj)
 		cd := *o.val.(*ChanData)
+		if !cd.closed {
+			cd.closedRel = st.hbRelease()
+		}
 		cd.closed = true
 		o.val = &cd
 		return ret1(st, nil)
@@ -76,7 +79,13 @@ func (ex *Exec) callBuiltin(st *State, fv FuncV, args []Value, call *ssa.CallCom
 		ch := args[0].(ChanV)
 		o := st.mut(ch.obj)
 		cd := *o.val.(*ChanData)
+		if cd.closed {
+			ex.obligations++
+			ex.recordViolation(st, "panic", ex.pos(ex.cur), ex.cur.Parent().String(), "close of closed channel")
+			return nil
+		}
 		cd.closed = true
+		cd.closedRel = st.hbRelease()
 		o.val = &cd
 		return ret1(st, nil)
 	case "min", "max":
